@@ -200,15 +200,18 @@ def dev_history(gens):
 
 
 def check_dev(a0: bool, a1: bool, a2: bool, b0: bool, b1: bool, b2: bool, c0: bool, c1: bool, c2: bool,
-              x0: bool, x1: bool, x2: bool, r0: bool, r1: bool, r2: bool) -> bool:
+              x0: bool, x1: bool, x2: bool, r0: bool, r1: bool, r2: bool, d0: bool, d1: bool, d2: bool) -> bool:
     """
     pre: a0 == bool(V.SHARD[0] & 1) and a1 == bool(V.SHARD[0] & 2) and a2 == bool(V.SHARD[0] & 4)
+    pre: V.SHARD[1] or (not d0 and not d1 and not d2)
     post: _
     """
     V.enter()
     gens = []
     for (s, x, r) in (((a0, a1, a2), x0, r0), ((b0, b1, b2), x1, r1), ((c0, c1, c2), x2, r2)):
         gens.append(([i + 1 for i in range(3) if bool(s[i])], bool(x), bool(r)))
+    if V.SHARD[1]:
+        gens.append(([i + 1 for i, b in enumerate((d0, d1, d2)) if bool(b)], False, False))      # thorough: a fourth generation
     with V.fast():
         ok, fact = dev_history(gens)
     return V.verdict(ok, fact)
@@ -249,15 +252,18 @@ def rel_history(gens):
 
 
 def check_rel(a0: bool, a1: bool, a2: bool, b0: bool, b1: bool, b2: bool, c0: bool, c1: bool, c2: bool,
-              x0: bool, x1: bool, x2: bool, r0: bool, r1: bool, r2: bool) -> bool:
+              x0: bool, x1: bool, x2: bool, r0: bool, r1: bool, r2: bool, d0: bool, d1: bool, d2: bool) -> bool:
     """
     pre: a0 == bool(V.SHARD[0] & 1) and a1 == bool(V.SHARD[0] & 2) and a2 == bool(V.SHARD[0] & 4)
+    pre: V.SHARD[1] or (not d0 and not d1 and not d2)
     post: _
     """
     V.enter()
     gens = []
     for (s, x, r) in (((a0, a1, a2), x0, r0), ((b0, b1, b2), x1, r1), ((c0, c1, c2), x2, r2)):
         gens.append(([i + 1 for i in range(3) if bool(s[i])], bool(x), bool(r)))
+    if V.SHARD[1]:
+        gens.append(([i + 1 for i, b in enumerate((d0, d1, d2)) if bool(b)], False, False))      # thorough: a fourth generation
     with V.fast():
         ok, fact = rel_history(gens)
     return V.verdict(ok, fact)
@@ -456,7 +462,7 @@ def check_clean(e0: bool, e1: bool, e2: bool, e3: bool, e4: bool, e5: bool,
 
 def PLAN(tier):
     q = tier == 'quick'
-    P = [dict(fn='check_dev', shard=[k], timeout=400 if q else 1500) for k in range(8)]
-    P += [dict(fn='check_rel', shard=[k], timeout=400) for k in range(8)]
+    P = [dict(fn='check_dev', shard=[k, not q], timeout=400 if q else 3000) for k in range(8)]
+    P += [dict(fn='check_rel', shard=[k, not q], timeout=400 if q else 3000) for k in range(8)]
     P += [dict(fn='check_clean', shard=[k], timeout=400) for k in range(8)]
     return P
